@@ -252,7 +252,9 @@ def r_escape(ctx) -> RuleResult:
     exc = _parser_exception(ctx)
     G = grammars(ctx)
     fis = [m for m in lis.methods.values()] + [f for f in closure(ctx, "parse") if f.module.name == "tucan.parser.parser" and f.cls is None]
-    elem_attrs = repo.try_const("tucan.element_attributes", "ELEMENT_ATTRS", {}) or {}
+    elem_attrs = repo.try_const("tucan.element_attributes", "ELEMENT_ATTRS", None)
+    if not isinstance(elem_attrs, dict) or not elem_attrs:
+        raise AnalysisError("R-ESCAPE: ELEMENT_ATTRS cannot be evaluated to a constant table")
     dmap = repo.try_const("tucan.parser.parser", "_DESERIALIZER_NODE_ATTRIBUTE_MAPPING", {}) or {}
     g_elems = {l for l in literals_of(G.g4, "sum_formula")} - {str(d) for d in range(10)} if "sum_formula" in G.g4 else set()
     g_keys = literals_of(G.g4, "node_property_key") if "node_property_key" in G.g4 else set()
